@@ -640,4 +640,223 @@ theorem compare_ub_on_pinned :
     compareUint64Double cfgPinned 5 (decode 0x43f0000000000000) = .ub ∧ cmpIntDbl 5 (decode 0x43f0000000000000) = -1 := by
   refine ⟨by decide, by decide, by decide, by decide⟩
 
+theorem varopFold_eq_foldl (c : Cfg) (N : NumOps) (t o : String) (acc : Res Val) (rest : List Val) :
+    varopFold c N t o acc rest = rest.foldl (fun acc z => acc.bind (fun a => vmOp c N t o a z)) acc := by
+  induction rest generalizing acc with
+  | nil => rfl
+  | cons z rest ih =>
+    cases acc with
+    | ok a => simp only [varopFold, List.foldl, Res.bind]; exact ih _
+    | err e =>
+      simp only [varopFold, List.foldl, Res.bind]
+      clear ih
+      induction rest with
+      | nil => rfl
+      | cons _ _ ih2 => simpa [List.foldl, Res.bind] using ih2
+    | ub =>
+      simp only [varopFold, List.foldl, Res.bind]
+      clear ih
+      induction rest with
+      | nil => rfl
+      | cons _ _ ih2 => simpa [List.foldl, Res.bind] using ih2
+
+
+/-! ## the VM's 32-bit bitwise opcodes on numbers -/
+
+theorem ediv_pow_bounds (a : Int) (n : Nat) :
+    (0 ≤ a → 0 ≤ a / 2 ^ n ∧ a / 2 ^ n ≤ a) ∧ (a < 0 → a ≤ a / 2 ^ n ∧ a / 2 ^ n < 0) := by
+  have hp : (0 : Int) < 2 ^ n := Int.pow_pos (by decide)
+  constructor
+  · intro h0; exact ⟨Int.ediv_nonneg h0 (Int.le_of_lt hp), Int.ediv_le_self _ h0⟩
+  · intro h0
+    have hneg : a / 2 ^ n < 0 := Int.ediv_neg_of_neg_of_pos h0 hp
+    refine ⟨?_, hneg⟩
+    have h3 := Int.lt_ediv_add_one_mul_self a hp
+    have h4 : (1:Int) ≤ 2 ^ n := hp
+    generalize a / 2 ^ n = q at *
+    generalize (2:Int) ^ n = p at *
+    by_cases hq : a ≤ q
+    · exact hq
+    · exfalso
+      have : q + 1 ≤ a := by omega
+      have h5 : (q + 1) * p ≤ (q + 1) * 1 := Int.mul_le_mul_of_nonpos_left (by omega) h4
+      omega
+
+theorem ofInt32_congr {x y : Int} (h : x % two32 = y % two32) : BitVec.ofInt 32 x = BitVec.ofInt 32 y := by
+  apply BitVec.eq_of_toNat_eq
+  simp only [BitVec.toNat_ofInt]
+  consts
+  have e : ((2 ^ 32 : Nat) : Int) = 4294967296 := by decide
+  rw [e, h]
+
+theorem ofInt32_wrapS32 (x : Int) : BitVec.ofInt 32 (wrapS32 x) = BitVec.ofInt 32 x := by
+  apply ofInt32_congr; consts; split <;> omega
+theorem ofInt32_wrapU32 (x : Int) : BitVec.ofInt 32 (wrapU32 x) = BitVec.ofInt 32 x := by
+  apply ofInt32_congr; consts; omega
+
+theorem ofNat32_toNat_wrapU (x : Int) : BitVec.ofNat 32 (wrapU x).toNat = BitVec.ofInt 32 x := by
+  apply BitVec.eq_of_toNat_eq
+  simp only [BitVec.toNat_ofInt, BitVec.toNat_ofNat]
+  consts
+  have e : ((2 ^ 32 : Nat) : Int) = 4294967296 := by decide
+  rw [e]
+  omega
+
+theorem twoPow32_eq (n : Nat) : BitVec.ofInt 32 ((2 : Int) ^ n) = BitVec.twoPow 32 n := by
+  apply BitVec.eq_of_toNat_eq
+  have : ((2 : Int) ^ n) = ((2 ^ n : Nat) : Int) := by simp
+  rw [this, BitVec.ofInt_natCast, BitVec.toNat_ofNat, BitVec.toNat_twoPow]
+
+/-- the 32-bit result type of the VM's bitwise opcodes -/
+def inRange32 (unsigned : Bool) (r : Int) : Prop := if unsigned then 0 ≤ r ∧ r < two32 else -two31 ≤ r ∧ r < two31
+
+theorem wrap32_inRange (u : Bool) (x : Int) : inRange32 u (wrap32 u x) := by
+  cases u <;> simp [inRange32, wrap32, wrapU32, wrapS32, two32, two31] <;> (try split) <;> omega
+theorem ofInt32_wrap32 (u : Bool) (x : Int) : BitVec.ofInt 32 (wrap32 u x) = BitVec.ofInt 32 x := by
+  cases u
+  · simpa [wrap32] using ofInt32_wrapS32 x
+  · simpa [wrap32] using ofInt32_wrapU32 x
+theorem wrap32_of_inRange (u : Bool) (x : Int) (h : inRange32 u x) : wrap32 u x = x := by
+  cases u <;> simp [inRange32, wrap32, wrapU32, wrapS32, two32, two31] at * <;> (try split) <;> omega
+
+theorem bitop32_and (u : Bool) (x1 x2 : Int) :
+    ∃ r, bitop32Value u "&" x1 x2 = some r ∧ inRange32 u r ∧ BitVec.ofInt 32 r = BitVec.ofInt 32 x1 &&& BitVec.ofInt 32 x2 := by
+  refine ⟨_, rfl, wrap32_inRange _ _, ?_⟩
+  rw [ofInt32_wrap32, natBit, ← ofNat32_toNat_wrapU x1, ← ofNat32_toNat_wrapU x2, ← BitVec.ofNat_and]; rfl
+theorem bitop32_or (u : Bool) (x1 x2 : Int) :
+    ∃ r, bitop32Value u "|" x1 x2 = some r ∧ inRange32 u r ∧ BitVec.ofInt 32 r = BitVec.ofInt 32 x1 ||| BitVec.ofInt 32 x2 := by
+  refine ⟨_, rfl, wrap32_inRange _ _, ?_⟩
+  rw [ofInt32_wrap32, natBit, ← ofNat32_toNat_wrapU x1, ← ofNat32_toNat_wrapU x2, ← BitVec.ofNat_or]; rfl
+theorem bitop32_xor (u : Bool) (x1 x2 : Int) :
+    ∃ r, bitop32Value u "^" x1 x2 = some r ∧ inRange32 u r ∧ BitVec.ofInt 32 r = BitVec.ofInt 32 x1 ^^^ BitVec.ofInt 32 x2 := by
+  refine ⟨_, rfl, wrap32_inRange _ _, ?_⟩
+  rw [ofInt32_wrap32, natBit, ← ofNat32_toNat_wrapU x1, ← ofNat32_toNat_wrapU x2, ← BitVec.ofNat_xor]; rfl
+
+theorem shiftCount32_of_defined (x2 : Int) (h : 0 ≤ x2 ∧ x2 < 32) : shiftCount32 x2 = x2.toNat := by
+  unfold shiftCount32; congr 1; omega
+
+theorem bitop32_shl (u : Bool) (x1 x2 : Int) (h : 0 ≤ x2 ∧ x2 < 32) :
+    ∃ r, bitop32Value u "<<" x1 x2 = some r ∧ inRange32 u r ∧ BitVec.ofInt 32 r = BitVec.ofInt 32 x1 <<< x2.toNat := by
+  refine ⟨_, rfl, wrap32_inRange _ _, ?_⟩
+  rw [ofInt32_wrap32, BitVec.ofInt_mul, twoPow32_eq, BitVec.shiftLeft_eq_mul_twoPow, shiftCount32_of_defined x2 h]
+
+theorem toInt_ofInt_s32 (a : Int) (h : -two31 ≤ a ∧ a < two31) : (BitVec.ofInt 32 a).toInt = a := by
+  rw [BitVec.toInt_ofInt]
+  consts
+  rw [Int.bmod_def]
+  have e : (((2:Nat) ^ 32 : Nat) : Int) = 4294967296 := by decide
+  simp only [e]
+  split <;> omega
+
+theorem toNat_ofInt_u32 (a : Int) (h : 0 ≤ a ∧ a < two32) : ((BitVec.ofInt 32 a).toNat : Int) = a := by
+  rw [BitVec.toNat_ofInt]
+  consts
+  have e : (((2:Nat) ^ 32 : Nat) : Int) = 4294967296 := by decide
+  rw [e]
+  omega
+
+/-- `brshift` on int32: arithmetic shift -/
+theorem bitop32_sar (x1 x2 : Int) (h1 : -two31 ≤ x1 ∧ x1 < two31) (h : 0 ≤ x2 ∧ x2 < 32) :
+    bitop32Value false ">>" x1 x2 = some ((BitVec.ofInt 32 x1).sshiftRight x2.toNat).toInt := by
+  rw [BitVec.toInt_sshiftRight, toInt_ofInt_s32 x1 h1, Int.shiftRight_eq_div_pow]
+  show some (wrap32 false (x1 / 2 ^ shiftCount32 x2)) = _
+  rw [shiftCount32_of_defined x2 h]
+  congr 1
+  have hb := ediv_pow_bounds x1 x2.toNat
+  apply wrap32_of_inRange
+  simp only [inRange32]
+  consts
+  simp only [Bool.false_eq_true, if_false]
+  by_cases h0 : 0 ≤ x1
+  · have := hb.1 h0; omega
+  · have := hb.2 (by omega); omega
+
+/-- `brushift` on uint32: logical shift -/
+theorem bitop32_shr (x1 x2 : Int) (h1 : 0 ≤ x1 ∧ x1 < two32) (h : 0 ≤ x2 ∧ x2 < 32) :
+    ∃ r, bitop32Value true ">>" x1 x2 = some r ∧ r = (((BitVec.ofInt 32 x1) >>> x2.toNat).toNat : Int) := by
+  refine ⟨_, rfl, ?_⟩
+  rw [BitVec.toNat_ushiftRight, Nat.shiftRight_eq_div_pow]
+  rw [shiftCount32_of_defined x2 h]
+  have hb := (ediv_pow_bounds x1 x2.toNat).1 h1.1
+  have e : (((BitVec.ofInt 32 x1).toNat / 2 ^ x2.toNat : Nat) : Int) = x1 / 2 ^ x2.toNat := by
+    rw [Int.natCast_ediv, toNat_ofInt_u32 x1 h1]; simp
+  rw [e]
+  apply wrap32_of_inRange
+  simp only [inRange32]
+  consts
+  simp; omega
+
+theorem checkIntRange_iff (d : Dbl) (n : Int) :
+    (checkIntRange d = some n ↔ d.toInt? = some n ∧ -two31 ≤ n ∧ n < two31) ∧
+    (checkUintRange d = some n ↔ d.toInt? = some n ∧ 0 ≤ n ∧ n < two32) := by
+  unfold checkIntRange checkUintRange
+  constructor <;> (cases h : d.toInt? <;> simp)
+  · constructor
+    · rintro ⟨h1, h2⟩; subst h2; exact ⟨rfl, h1⟩
+    · rintro ⟨h1, h2⟩; subst h1; exact ⟨h2, rfl⟩
+  · constructor
+    · rintro ⟨h1, h2⟩; subst h2; exact ⟨rfl, h1⟩
+    · rintro ⟨h1, h2⟩; subst h1; exact ⟨h2, rfl⟩
+
+
+/-! ## n-ary calls -/
+
+theorem unwrap_box (k : Kind) (b : Int) : unwrap k (Val.box k b) = .ok b := by cases k <;> rfl
+
+/-- n-ary `+` method: the loop adds every operand, result = the sum reduced mod 2^64 into the type -/
+theorem methodLoop_add (k : Kind) (a : Int) (bs : List Int) :
+    ∃ r, methodLoop k (opMethod k "+") false a (bs.map (Val.box k)) = .ok r ∧ (bs = [] ∨ k.inRange r) ∧
+      BitVec.ofInt 64 r = BitVec.ofInt 64 (a + bs.sum) := by
+  induction bs generalizing a with
+  | nil => exact ⟨a, rfl, Or.inl rfl, by simp⟩
+  | cons b bs ih =>
+    obtain ⟨r1, h1, hr1, e1⟩ := opMethod_add k a b
+    obtain ⟨r, h, hr, e⟩ := ih r1
+    refine ⟨r, ?_, Or.inr ?_, ?_⟩
+    · simp only [List.map, methodLoop, unwrap_box, Bool.false_and, Bool.false_eq_true, if_false, h1]
+      exact h
+    · rcases hr with rfl | hr
+      · simp only [List.map, methodLoop] at h; injection h with h; subst h; exact hr1
+      · exact hr
+    · rw [e, List.sum_cons, BitVec.ofInt_add, e1, BitVec.ofInt_add, BitVec.ofInt_add, BitVec.add_assoc]
+
+/-- n-ary `*` method -/
+theorem methodLoop_mul (k : Kind) (a : Int) (bs : List Int) :
+    ∃ r, methodLoop k (opMethod k "*") false a (bs.map (Val.box k)) = .ok r ∧
+      BitVec.ofInt 64 r = BitVec.ofInt 64 (bs.foldl (· * ·) a) := by
+  induction bs generalizing a with
+  | nil => exact ⟨a, rfl, rfl⟩
+  | cons b bs ih =>
+    obtain ⟨r1, h1, _, e1⟩ := opMethod_mul k a b
+    obtain ⟨r, h, e⟩ := ih r1
+    refine ⟨r, ?_, ?_⟩
+    · simp only [List.map, methodLoop, unwrap_box, Bool.false_and, Bool.false_eq_true, if_false, h1]
+      exact h
+    · rw [e, List.foldl_cons]
+      have key : ∀ (l : List Int) (x y : Int), BitVec.ofInt 64 x = BitVec.ofInt 64 y →
+          BitVec.ofInt 64 (l.foldl (· * ·) x) = BitVec.ofInt 64 (l.foldl (· * ·) y) := by
+        intro l
+        induction l with
+        | nil => intro x y h; exact h
+        | cons c l ihl =>
+          intro x y h
+          simp only [List.foldl_cons]
+          apply ihl
+          rw [BitVec.ofInt_mul, BitVec.ofInt_mul, h]
+      apply key
+      rw [e1, BitVec.ofInt_mul]
+
+/-- the variadic core functions on ≥ 2 arguments are the left fold of the VM's binary opcode over the argument list -/
+theorem varops_are_left_folds (c : Cfg) (N : NumOps) (x y : Val) (rest : List Val) :
+    ∀ p ∈ [("+", "binop", "+"), ("-", "binop", "-"), ("*", "binop", "*"), ("/", "binop", "/"), ("div", "divfloor", "div"),
+           ("mod", "modulo", "mod"), ("%", "remainder", "%"), ("band", "bitop", "&"), ("bor", "bitop", "|"), ("bxor", "bitop", "^"),
+           ("blshift", "bitop", "<<"), ("brshift", "bitop", ">>"), ("brushift", "bitopu", ">>")],
+      evalFn c N p.1 (x :: y :: rest) =
+        rest.foldl (fun acc z => acc.bind (fun a => vmOp c N p.2.1 p.2.2 a z)) (vmOp c N p.2.1 p.2.2 x y) := by
+  intro p hp
+  rw [← varopFold_eq_foldl]
+  simp only [List.mem_cons, List.mem_nil_iff, or_false] at hp
+  rcases hp with rfl | rfl | rfl | rfl | rfl | rfl | rfl | rfl | rfl | rfl | rfl | rfl | rfl <;> rfl
+
+
 end JanetModel.Int64
